@@ -53,6 +53,20 @@ CHECKS.update({
    text="TLC explores every placement of up to 2-3 faults over create/update/delete commits and over the repair write, in both variants (applied / not applied), interleaved with a second writer and a compaction request, and checks Converged (events replayed over the initial snapshot = final store), AckedDurable, CompactClamp, RepairStillPossible, NoOvertake and Resolved. The generated schedules are replayed on memkv, TiKV mock and Badger with the same answers injected by the recording engine wrapper and the repair loop as a gated process; every trace is judged by the monitors, with a watcher from the first revision providing the delivered events.",
    ref="6/C09"),
 })
+CHECKS.update({
+ "C10": dict(technique="byte-level TLA+ transcription of the coder (Coder.tla) model-checked by TLC over alphabet {0x25,0x2f,0x61,0xff}; every evaluation of the real functions validated by TLC against the transcription (TraceCoder.tla)",
+   text="The self-contained functions EncodeObjectKey/Decode/PrefixEnd/ParseRevision are transcribed into TLA+; TLC checks round trip, order preservation (key first, revision second), index-first, contiguity, range and prefix bound enclosure for all keys of length <= 2 (quick) / 3 (thorough) and six boundary revisions. The real Go functions are evaluated exhaustively on the 85-key domain and on seed-chosen long keys with random 64-bit revisions; TLC checks each logged result against the transcription and that the logged encodings ascend strictly in (key, revision) order.",
+   ref="6/C10", note="exhaustive for the stated domain only; trusted base: TLC, the harness' byte-to-JSON rendering"),
+ "C11": dict(technique="TLA+ engine contract (Storage.tla) model-checked by TLC; TLC-generated operation sequences executed on memkv, Badger, TiKV mock and each behind the metrics wrapper; every result re-executed on the contract by TLC (TraceStorage.tla)",
+   text="Storage.tla states the contract (sequential condition evaluation inside a batch, all-or-nothing, failed condition <=> condition false, iterator = interval from the snapshot at open, in direction, limit = at least the first n). TLC checks its internal consistency over all short sequences and generates long random sequences (two-operation batches, conditions on missing keys, bounds on/between/outside keys, backward and limited iterators, iterators consumed after later commits, compare-and-delete after a conflicting write). Each sequence runs on six engine configurations; TraceStorage re-executes every logged operation and requires the logged result class, values and iterator contents.",
+   ref="6/C11"),
+ "C14": dict(technique="TLA+ model of the lock record (Election.tla) model-checked by TLC for 2-3 candidates; TLC-generated interleavings of Get/Create/Update executed on the real resource lock over 4 engines; TLC trace validation against the record rebuilt from logged engine commits (TraceElection.tla)",
+   text="All interleavings of the get / create / update steps of up to three candidates are explored by TLC (AtMostOneCreate, NoTwoFromSameObserved, NeverSilentlyOverwritten). Generated interleavings are executed on election.NewResourceLockManager over memkv, Badger, TiKV mock and the metrics wrapper; the trace monitors require Create to succeed iff the record is absent, Update iff the record equals what that candidate last read, and every change of the stored record to come from such a conditional write.",
+   ref="6/C14"),
+ "C15": dict(technique="TLA+ model of leader start-up and engine clock kinds (Election.tla) model-checked by TLC; restart scenarios through the real Campaign()/OnStartedLeading on memkv, TiKV mock, Badger, metrics wrapper; TLC trace validation (NewRevisionsAboveStored, GuardedWritesKeepWorking, OldDataVisible)",
+   text="TLC checks that a new leader's revisions exceed everything stored when the engine clock advances at least as fast as write attempts, and produces the counterexample for a transaction-counting clock. On the real code an old leader (real election, real seeding from the lock description) serves successful and many failed writes, stops after any request, and a restarted node becomes leader the same way; first revisions, a guarded update of an old key and a list are judged by the monitors per engine. Badger violates the property (known finding D10).",
+   ref="6/C15", note="fail-over between different identities is not executed (losing the lease ends the process); the restart path runs the same seeding code. Trusted base as above."),
+})
 NA = {
  "C19": "data-race freedom is a property of memory accesses under the Go memory model; a TLA+ specification has no notion of an unsynchronised access and trace validation cannot observe one (see DESIGN.md section 6, C19)",
 }
